@@ -184,7 +184,7 @@ package kvgraph
 // EVERY key (the touched ones and the frame), so the whole view is determined.
 
 //@ func insertVertex
-//@   property C03 C16
+//@   property C03 C16 C04
 //@   option prelude=keys,kv
 //@   option load=kvindex,kvi,gripql
 //@   option globals=kvgraph
@@ -193,9 +193,10 @@ package kvgraph
 //@   ensures rejected: !vertexValid(vertex) ==> result != nil && same(kvdom(), old(kvdom())) && same(kvvals(), old(kvvals()))
 //@   ensures acked: result == nil ==> kvhas(VertexKey(graph, vertex.Gid)) && kvval(VertexKey(graph, vertex.Gid)) == pmarshal(box(vertex))
 //@   ensures frame: forall k:Str :: k != VertexKey(graph, vertex.Gid) && !idxkey(k) ==> ((kvhas(k) <==> old(kvhas(k))) && kvval(k) == old(kvval(k)))
+//@   ensures nowrite: kvwrites() == old(kvwrites())
 
 //@ func insertEdge
-//@   property C03 C16
+//@   property C03 C16 C04
 //@   option prelude=keys,kv
 //@   option load=kvindex,kvi,gripql
 //@   option globals=kvgraph
@@ -207,12 +208,13 @@ package kvgraph
 //@   ensures rejected: !edgeValid(edge) ==> result != nil && same(kvdom(), old(kvdom())) && same(kvvals(), old(kvvals()))
 //@   ensures acked: result == nil ==> kvhas(ek) && kvhas(sk) && kvhas(dk) && kvval(ek) == pmarshal(box(edge))
 //@   ensures frame: forall k:Str :: k != ek && k != sk && k != dk && !idxkey(k) ==> ((kvhas(k) <==> old(kvhas(k))) && kvval(k) == old(kvval(k)))
+//@   ensures nowrite: kvwrites() == old(kvwrites())
 
 // DelEdge removes the edge key found under the edge-id prefix together with exactly its
 // by-source and by-destination entries, touches the graph's timestamp, and changes
 // nothing else; an absent edge is an error that changes nothing.
 //@ func (*KVInterfaceGDB).DelEdge
-//@   property C03
+//@   property C04 C03
 //@   option prelude=keys,kv
 //@   option load=kvindex,kvi,timestamp
 //@   option globals=kvgraph
@@ -234,11 +236,12 @@ package kvgraph
 //@   ensures removed: result == nil ==> !kvhas(ekey) && !kvhas(sk) && !kvhas(dk)
 //@   ensures frame: result == nil ==> (forall k:Str :: k != ekey && k != sk && k != dk ==> ((kvhas(k) <==> old(kvhas(k))) && kvval(k) == old(kvval(k))))
 //@   ensures touch: result == nil ==> touched(kgdb.graph)
+//@   ensures atomic: kvwrites() <= old(kvwrites()) + 1
 
 // AddVertex: one bulk write; only the vertex keys of the given ids (and index keys)
 // change; the graph's timestamp is touched exactly when something was stored.
 //@ func (*KVInterfaceGDB).AddVertex
-//@   property C03
+//@   property C04 C03
 //@   option prelude=keys,kv
 //@   option load=kvindex,kvi,timestamp,gdbi,gripql
 //@   option globals=kvgraph
@@ -249,14 +252,16 @@ package kvgraph
 //@       (exists j :: 0 <= j && j <= rangeindex && k == vkeyOf(kgdb.graph, vertices[j].ID))
 //@   loop 101 invariant quiet: same(touchedset(), old(touchedset())) && (bulkErr == nil && rangeindex >= 0 ==> changed) && (rangeindex < 0 ==> !changed)
 //@   loop 101 invariant bound: rangeindex < len(vertices)
+//@   loop 101 invariant nw: kvwrites() == old(kvwrites())
 //@   ensures frame: forall k:Str :: !idxkey(k) && !((kvhas(k) <==> old(kvhas(k))) && kvval(k) == old(kvval(k))) ==>
 //@       (exists j :: 0 <= j && j < len(vertices) && k == vkeyOf(kgdb.graph, vertices[j].ID))
 //@   ensures touch: result == nil && len(vertices) > 0 ==> touched(kgdb.graph)
 //@   ensures notouch: len(vertices) == 0 ==> same(touchedset(), old(touchedset()))
 //@   ensures onlythis: forall g:Str :: g != kgdb.graph ==> (touched(g) <==> old(touched(g)))
+//@   ensures atomic: kvwrites() <= old(kvwrites()) + 1
 
 //@ func (*KVInterfaceGDB).AddEdge
-//@   property C03
+//@   property C04 C03
 //@   option prelude=keys,kv
 //@   option load=kvindex,kvi,timestamp,gdbi,gripql
 //@   option globals=kvgraph
@@ -269,6 +274,7 @@ package kvgraph
 //@          k == dkeyOf(kgdb.graph, edges[j].From, edges[j].To, edges[j].ID, edges[j].Label, 1)))
 //@   loop 101 invariant quiet: same(touchedset(), old(touchedset())) && (bulkErr == nil && rangeindex >= 0 ==> changed) && (rangeindex < 0 ==> !changed)
 //@   loop 101 invariant bound: rangeindex < len(edges)
+//@   loop 101 invariant nw: kvwrites() == old(kvwrites())
 //@   ensures frame: forall k:Str :: !idxkey(k) && !((kvhas(k) <==> old(kvhas(k))) && kvval(k) == old(kvval(k))) ==>
 //@       (exists j :: 0 <= j && j < len(edges) && (k == ekeyOf(kgdb.graph, edges[j].ID, edges[j].From, edges[j].To, edges[j].Label, 1) ||
 //@          k == skeyOf(kgdb.graph, edges[j].From, edges[j].To, edges[j].ID, edges[j].Label, 1) ||
@@ -276,12 +282,13 @@ package kvgraph
 //@   ensures touch: result == nil && len(edges) > 0 ==> touched(kgdb.graph)
 //@   ensures notouch: len(edges) == 0 ==> same(touchedset(), old(touchedset()))
 //@   ensures onlythis: forall g:Str :: g != kgdb.graph ==> (touched(g) <==> old(touched(g)))
+//@   ensures atomic: kvwrites() <= old(kvwrites()) + 1
 
 // DeleteGraph removes every key of the graph's five key families and nothing of any
 // other graph (graph names are NUL-free, so one graph's prefixes never capture
 // another's keys -- lemmas keys.prefix.*); errors of the store are reported.
 //@ func (*KVGraph).DeleteGraph
-//@   property C03 C16
+//@   property C04 C03 C16
 //@   option prelude=keys,kv
 //@   option load=kvindex,kvi,timestamp
 //@   option globals=kvgraph
@@ -297,6 +304,7 @@ package kvgraph
 //@       kvhas(k) && kvval(k) == old(kvval(k))
 //@   ensures nonew: forall k:Str :: kvhas(k) && !idxkey(k) ==> old(kvhas(k))
 //@   ensures touch: touched(graph) && (forall g:Str :: g != graph ==> (touched(g) <==> old(touched(g))))
+//@   ensures atomic: kvwrites() <= old(kvwrites()) + 1
 
 // AddGraph: an invalid name is refused and changes nothing; a valid name stores the
 // graph key (and index registrations), leaving every other non-index key alone.
